@@ -795,7 +795,7 @@ Record region_post (tol : Q) (R : region) (g : gst) (sep : Q) (cs : list con) (x
       (sfixed s = true -> w == spos s) /\
       (sfixed s = false -> w == Qmin' (Qmax' (nth (seg_var g i) xs 0) (smin s)) (smax s) /\
                            (smin s <= smax s -> smin s <= w /\ w <= smax s) /\
-                           Qabs' (w - nth (seg_var g i) xs 0) <= SAT_TOL + tol)
+                           (runify R = false -> Qabs' (w - nth (seg_var g i) xs 0) <= SAT_TOL + tol))
 }.
 
 Theorem nudge_region_ok_sound tol R g sat sep cs xs pos :
@@ -822,8 +822,8 @@ Proof.
       unfold seg_written_ok in Hwr. split.
       * intros Hf. rewrite Hf in Hwr. apply Qeqb_spec. exact Hwr.
       * intros Hf. rewrite Hf in Hwr. apply andb_true_iff in Hwr. destruct Hwr as [AB D].
-        apply andb_true_iff in AB. destruct AB as [A B]. apply Qleb_spec in D.
-        apply Qeqb_spec in A. split; [exact A|]. split; [|exact D]. intros Hle. apply orb_true_iff in B. destruct B as [B|B].
+        apply andb_true_iff in AB. destruct AB as [A B].
+        apply Qeqb_spec in A. split; [exact A|]. split; [|intros Hu; rewrite Hu in D; cbn in D; apply Qleb_spec in D; exact D]. intros Hle. apply orb_true_iff in B. destruct B as [B|B].
         { apply negb_true_iff, Qleb_false in B. lra. }
         apply andb_true_iff in B. rewrite !Qleb_spec in B. exact B.
   - rewrite andb_true_iff, forallb_forall. intros [_ H] i s w Hs Hw.
